@@ -36,6 +36,16 @@ pub enum SerializableTerm {
     Aggregate(AggregateFunc, String),
     /// Arithmetic expression (e.g., D+1, X*Y)
     Arithmetic(SerializableArithExpr),
+    /// Boolean constant (true / false)
+    BoolConstant(bool),
+    /// Vector literal (e.g., [1.0, 2.0])
+    VectorLiteral(Vec<f64>),
+    /// Built-in function call by name (e.g., euclidean(V, [1.0, 2.0]), len(S))
+    FunctionCall(String, Vec<SerializableTerm>),
+    /// Field access on a record variable (e.g., U.id)
+    FieldAccess(Box<SerializableTerm>, String),
+    /// Record pattern (e.g., { id: X, name: Y })
+    RecordPattern(Vec<(String, SerializableTerm)>),
 }
 
 /// Serializable arithmetic expression for JSON storage
@@ -140,9 +150,31 @@ impl SerializableTerm {
             Term::Arithmetic(expr) => {
                 SerializableTerm::Arithmetic(SerializableArithExpr::from_arith_expr(expr))
             }
-            // For other complex terms (FunctionCall, VectorLiteral),
-            // we simplify to placeholder as they're not typically used in view definitions
-            _ => SerializableTerm::Placeholder,
+            Term::BoolConstant(b) => SerializableTerm::BoolConstant(*b),
+            // A vector literal that stands alone as an atom argument is still simplified
+            // to a placeholder; as a function argument it is kept.
+            Term::VectorLiteral(_) => SerializableTerm::Placeholder,
+            Term::FunctionCall(func, args) => SerializableTerm::FunctionCall(
+                func.as_str().to_string(),
+                args.iter()
+                    .map(|arg| match arg {
+                        Term::VectorLiteral(values) => {
+                            SerializableTerm::VectorLiteral(values.clone())
+                        }
+                        other => SerializableTerm::from_term(other),
+                    })
+                    .collect(),
+            ),
+            Term::FieldAccess(base, field) => SerializableTerm::FieldAccess(
+                Box::new(SerializableTerm::from_term(base)),
+                field.clone(),
+            ),
+            Term::RecordPattern(fields) => SerializableTerm::RecordPattern(
+                fields
+                    .iter()
+                    .map(|(name, term)| (name.clone(), SerializableTerm::from_term(term)))
+                    .collect(),
+            ),
         }
     }
 
@@ -155,6 +187,28 @@ impl SerializableTerm {
             SerializableTerm::Placeholder => Term::Placeholder,
             SerializableTerm::Aggregate(func, var) => Term::Aggregate(func.clone(), var.clone()),
             SerializableTerm::Arithmetic(expr) => Term::Arithmetic(expr.to_arith_expr()),
+            SerializableTerm::BoolConstant(b) => Term::BoolConstant(*b),
+            SerializableTerm::VectorLiteral(values) => Term::VectorLiteral(values.clone()),
+            SerializableTerm::FunctionCall(name, args) => {
+                match crate::ast::BuiltinFunc::parse(name) {
+                    Some(func) => Term::FunctionCall(
+                        func,
+                        args.iter().map(SerializableTerm::to_term).collect(),
+                    ),
+                    // Unknown name (catalog written by a newer version): keep the
+                    // old behaviour for unrepresentable terms.
+                    None => Term::Placeholder,
+                }
+            }
+            SerializableTerm::FieldAccess(base, field) => {
+                Term::FieldAccess(Box::new(base.to_term()), field.clone())
+            }
+            SerializableTerm::RecordPattern(fields) => Term::RecordPattern(
+                fields
+                    .iter()
+                    .map(|(name, term)| (name.clone(), term.to_term()))
+                    .collect(),
+            ),
         }
     }
 }
